@@ -6,7 +6,9 @@ From VBase Require Import FieldOps MachInt.
 From VGen Require Import FriInt.
 From VModel Require Import Merkle Fri FriMerkle.
 From VBase Require Import ZpOps.
-From VProofs Require Import FriIdx FriField FriInterp FriProver FriRoots FriCoset FriComplete FriMerkleInst FriFields FriGen ZpLaws.
+From VProofs Require Import FriIdx FriField FriInterp FriProver FriRoots FriCoset FriComplete FriMerkleInst FriFields FriQuad FriGen ZpLaws.
+From VModel Require Import ExtField.
+From VProofs Require Import ExtModel.
 Import ListNotations.
 Local Open Scope nat_scope.
 
@@ -401,6 +403,60 @@ Theorem C15_fri_complete_f128 : forall (dbg : bool) (D : Type) (D_eqb : D -> D -
     = RunVerdict (Ok tt).
 Proof. exact fri_complete_f128. Qed.
 Print Assumptions C15_fri_complete_f128.
+
+(* (3''') the quadratic extension field over F64 — the case the STARK pipeline uses whenever an extension is selected: the FRI
+   domain lives in the base field and is embedded (E::from); the root-family facts and offset <> 0 are TRANSPORTED through the
+   embedding, an injective ring homomorphism (C08: ExtModel.q_embed_hom; Proofs/FriQuad.v), the field laws of the extension
+   are C08's f64_quad_laws.  Same premise list as C15_fri_complete_f64: D_eqb decides equality, draw_total, the parameters. *)
+Theorem C15_fri_complete_f64_quad : forall (dbg : bool) (D : Type) (D_eqb : D -> D -> bool),
+  (forall a b, D_eqb a b = true <-> a = b) ->
+  forall (d0 : D) (merge : D -> D -> D) (CS : Type) (cs_reseed : CS -> D -> CS)
+         (hash_elements : list (Zp P64 * Zp P64) -> D) (cs_draw : CS -> CS * draw_res (Zp P64 * Zp P64)),
+  (forall c, exists c' a, cs_draw c = (c', DrawOk a)) ->
+  forall f b remmax, 1 <= f -> supported_folding (2 ^ f) = true ->
+  forall a k P positions coin0,
+  num_fri_layers (mkOpts (2 ^ b) (2 ^ f) remmax) (2 ^ a) = Some k -> k * f < a -> b <= a - k * f -> a <= 32 -> a <= 62 ->
+  length P = 2 ^ (a - b) ->
+  positions <> [] /\ length positions <= 255 /\ (forall p, In p positions -> p < 2 ^ a) ->
+  let evals := coset_evals Q64 P genQ64 (rouQ64 a) (2 ^ a) in
+  exists cs proof p',
+    prove Q64 rouQ64 32 genQ64 D hash_elements (mtree D) (list (list D))
+          (cm_new D d0 merge) (cm_root D d0) (cm_prove_batch D d0) CS cs_reseed cs_draw
+          (mkOpts (2 ^ b) (2 ^ f) remmax) coin0 evals positions = Ok (cs, proof, p') /\
+    run_verifier Q64 rouQ64 32 genQ64 dbg D D_eqb hash_elements (list (list D)) (cm_verify_batch D D_eqb merge)
+          CS cs_reseed cs_draw true
+          (mkOpts (2 ^ b) (2 ^ f) remmax) coin0 proof cs (2 ^ (a - b) - 1) (2 ^ a)
+          (map (fun p => nth p evals (fzero Q64)) positions) positions
+    = RunVerdict (Ok tt).
+Proof. exact fri_complete_f64_quad. Qed.
+Print Assumptions C15_fri_complete_f64_quad.
+
+(* (3''') the quadratic extension field over F128 — the case the STARK pipeline uses whenever an extension is selected: the FRI
+   domain lives in the base field and is embedded (E::from); the root-family facts and offset <> 0 are TRANSPORTED through the
+   embedding, an injective ring homomorphism (C08: ExtModel.q_embed_hom; Proofs/FriQuad.v), the field laws of the extension
+   are C08's f128_quad_laws.  Same premise list as C15_fri_complete_f128: D_eqb decides equality, draw_total, the parameters. *)
+Theorem C15_fri_complete_f128_quad : forall (dbg : bool) (D : Type) (D_eqb : D -> D -> bool),
+  (forall a b, D_eqb a b = true <-> a = b) ->
+  forall (d0 : D) (merge : D -> D -> D) (CS : Type) (cs_reseed : CS -> D -> CS)
+         (hash_elements : list (Zp P128 * Zp P128) -> D) (cs_draw : CS -> CS * draw_res (Zp P128 * Zp P128)),
+  (forall c, exists c' a, cs_draw c = (c', DrawOk a)) ->
+  forall f b remmax, 1 <= f -> supported_folding (2 ^ f) = true ->
+  forall a k P positions coin0,
+  num_fri_layers (mkOpts (2 ^ b) (2 ^ f) remmax) (2 ^ a) = Some k -> k * f < a -> b <= a - k * f -> a <= 40 -> a <= 62 ->
+  length P = 2 ^ (a - b) ->
+  positions <> [] /\ length positions <= 255 /\ (forall p, In p positions -> p < 2 ^ a) ->
+  let evals := coset_evals Q128 P genQ128 (rouQ128 a) (2 ^ a) in
+  exists cs proof p',
+    prove Q128 rouQ128 40 genQ128 D hash_elements (mtree D) (list (list D))
+          (cm_new D d0 merge) (cm_root D d0) (cm_prove_batch D d0) CS cs_reseed cs_draw
+          (mkOpts (2 ^ b) (2 ^ f) remmax) coin0 evals positions = Ok (cs, proof, p') /\
+    run_verifier Q128 rouQ128 40 genQ128 dbg D D_eqb hash_elements (list (list D)) (cm_verify_batch D D_eqb merge)
+          CS cs_reseed cs_draw true
+          (mkOpts (2 ^ b) (2 ^ f) remmax) coin0 proof cs (2 ^ (a - b) - 1) (2 ^ a)
+          (map (fun p => nth p evals (fzero Q128)) positions) positions
+    = RunVerdict (Ok tt).
+Proof. exact fri_complete_f128_quad. Qed.
+Print Assumptions C15_fri_complete_f128_quad.
 
 (* non-vacuity of the root-family hypotheses: f64, K = 2, roots 1, -1, 2^48 (2^96 = -1 in the Goldilocks field) *)
 Example C15_root_family_satisfiable : exists rou : nat -> Zp P64,
